@@ -13,9 +13,9 @@ cp $WT/demo.py $OUT/demo.py 2>/dev/null
 cp $WT/notes.md $OUT/notes.md 2>/dev/null
 echo "== demo with change"; PYTHONPATH=$WT timeout 900 /venv/bin/python $OUT/demo.py > $OUT/demo_with.log 2>&1; DW=$?; echo "exit $DW"
 echo "== suite with change"; PYTHONPATH=$WT timeout 1800 /venv/bin/python -m pytest -q -p no:cacheprovider -n 6 --timeout=900 2>&1 | tail -1 | tee $OUT/suite_with.log
-git stash -q
+git apply -R $OUT/patch.diff || { echo 'cannot revert patch'; exit 4; }
 echo "== demo without change"; PYTHONPATH=$WT timeout 900 /venv/bin/python $OUT/demo.py > $OUT/demo_without.log 2>&1; DO=$?; echo "exit $DO"
-git stash pop -q
+git apply $OUT/patch.diff
 echo "== checks on a scratch copy of /repo with the patch applied (KVC_REPO; evidence redirected with KVC_OUT; /repo untouched)"
 SCR=/var/tmp/kvcscratch/eval_$NAME; rm -rf $SCR; mkdir -p $SCR/repo $SCR/out; cp -r /repo/kingdon $SCR/repo/kingdon
 (cd $SCR/repo && patch -s -p1 < $OUT/patch.diff) || { echo "PATCH DOES NOT APPLY TO /repo"; rm -rf $SCR; exit 3; }
